@@ -171,6 +171,24 @@ func ApplyRecreate(w *world.World, pod string) {
 	w.Pods = append(w.Pods, np)
 }
 
+// RecreateDeleted: closed system - pods the cycle deleted outright (an evicted pod that was not yet
+// assigned to a node disappears without a terminating phase) are recreated as pending, exactly
+// like the terminating ones are by ApplyRecreate.
+func RecreateDeleted(pre, after *world.World) {
+	for _, p := range pre.Pods {
+		if p.Namespace != world.NS || world.IsReservationPod(p) || after.Pod(p.Name) != nil {
+			continue
+		}
+		np := p.DeepCopy()
+		np.DeletionTimestamp = nil
+		np.Finalizers = nil
+		np.Spec.NodeName = ""
+		np.Status = corev1.PodStatus{Phase: corev1.PodPending}
+		np.CreationTimestamp = metav1.NewTime(world.Epoch.Add(time.Duration(maxRank(after)+1) * time.Second))
+		after.Pods = append(after.Pods, np)
+	}
+}
+
 func ApplyComplete(w *world.World, pod string) {
 	p := w.Pod(pod)
 	if p == nil {
